@@ -44,6 +44,10 @@ func patch(
 		}
 		return o, nil
 	}
+	if len(pathAhead) > 0 && strategy != mergePatchStrategy {
+		// A set or multiset hunk addressed to something that is not an array.
+		return patchErrExpectColl(node, pathAhead[0])
+	}
 	if len(oldValues) > 1 || len(newValues) > 1 {
 		return patchErrNonSetDiff(oldValues, newValues, pathBehind)
 	}
